@@ -20,6 +20,8 @@ func runC06(p *Program, r *Report) {
 	ruleR062(p, r)
 	r.Rule("R06.3", "E3", 1, "rotation refreshes the cached history: every success path of WriteKeyFile that passes the history backup also refreshes (or drops) the cached list of historical file names for that key")
 	ruleR063(p, r)
+	r.Rule("R06.5", "E2", 4, "one identity for the cached history list: every lookup/store of the cached list of historical file names is keyed by the path of the key file derived from the function's file-name argument only through filepath.Clean / filepath.Join (never a lossy path function or substring), and the listing it caches is taken for that same path value")
+	ruleR065(p, r)
 	r.Rule("R06.4", "E2", 2, "newest first: KeyRing.AllKeys fills the result from the end (index count-i-1), getHistoricalFilePaths puts the current file first")
 	ruleR064(p, r)
 }
@@ -341,4 +343,62 @@ func init() {
 	mut("C06", "rotation no longer refreshes the cached history (original defect)", "keystore/filesystem/server_keystore.go", "	store.refreshCachedHistoricalFilenames(filename)\n	return nil", "	return nil", "R06.3", "WriteKeyFile")
 	mut("C06", "refresh helper stops re-caching", "keystore/filesystem/server_keystore.go", "	if err == nil {\n		err = store.cacheHistoricalPrivateKeyFilenames(fullPath, paths)\n	}\n	if err != nil {\n		store.cache.Clear()\n	}", "	if err != nil {\n		log.WithError(err).Debugln(\"can't refresh\")\n	}", "R06.3", "WriteKeyFile")
 	mut("C06", "AllKeys returns oldest first", "keystore/v2/keystore/filesystem/keyRing.go", "		keySeqnums[keyCount-i-1] = r.data.Keys[i].Seqnum", "		keySeqnums[i] = r.data.Keys[i].Seqnum", "R06.4", "AllKeys")
+}
+
+func ruleR065(p *Program, r *Report) {
+	cacheFn := p.FuncObj("keystore/filesystem.(*KeyStore).cacheHistoricalPrivateKeyFilenames")
+	getFn := p.FuncObj("keystore/filesystem.(*KeyStore).getCachedHistoricalPrivateKeyFilenames")
+	listFn := p.FuncObj("keystore/filesystem.getHistoricalFilePaths")
+	if cacheFn == nil || getFn == nil || listFn == nil {
+		r.Anchor("R06.5", "cacheHistoricalPrivateKeyFilenames / getCachedHistoricalPrivateKeyFilenames / getHistoricalFilePaths")
+		return
+	}
+	for _, fn := range p.srcFns {
+		var sites []callSite
+		sites = append(sites, callsTo(fn, cacheFn)...)
+		sites = append(sites, callsTo(fn, getFn)...)
+		if len(sites) == 0 {
+			continue
+		}
+		lists := callsTo(fn, listFn)
+		for k, cs := range sites {
+			id := cs.Instr.Common().Args[1]
+			bad := ""
+			fromParam := false
+			for v := range backClosure(id) {
+				switch x := v.(type) {
+				case *ssa.Parameter:
+					if b, ok := x.Type().Underlying().(*types.Basic); ok && b.Info()&types.IsString != 0 {
+						fromParam = true
+					}
+				case *ssa.Call:
+					co := calleeOfCommon(x.Common())
+					if co == nil || co.Pkg() == nil || co.Pkg().Path() != "path/filepath" || (co.Name() != "Clean" && co.Name() != "Join") {
+						name := "an indirect call"
+						if co != nil {
+							name = co.FullName()
+						}
+						bad = "the cache identity passes through " + name
+					}
+				case *ssa.Slice:
+					if b, ok := x.X.Type().Underlying().(*types.Basic); ok && b.Info()&types.IsString != 0 {
+						bad = "the cache identity is a substring"
+					}
+				}
+			}
+			if bad == "" && !fromParam {
+				bad = "the cache identity does not derive from the file name argument"
+			}
+			for _, l := range lists {
+				if l.Instr.Common().Args[0] != id {
+					bad = "the listing is taken for another path value than the cache identity"
+				}
+			}
+			r.Check(bad == "", "R06.5", fnName(fn), fmt.Sprintf("cache identity #%d (%s)", k+1, cs.Callee.Name()), p.Pos(cs.Instr.Pos()), "Clean/Join of the file name; listing for the same value", bad+": readers and the rotation-time refresh disagree on the key of some key files, so a warm cache keeps offering the pre-rotation list")
+		}
+	}
+}
+
+func init() {
+	mut("C06", "rotation-time refresh keys the cache by directory + base name", "keystore/filesystem/server_keystore.go", "func (store *KeyStore) refreshCachedHistoricalFilenames(filename string) {\n	fullPath := filepath.Clean(filename)", "func (store *KeyStore) refreshCachedHistoricalFilenames(filename string) {\n	fullPath := filepath.Join(store.privateKeyDirectory, filepath.Base(filename))", "R06.5", "cache identity")
 }
